@@ -190,13 +190,25 @@ def h_stream_one():
         check(c.open_outbound_streams == 1 and s.open_inbound_streams == 1, 'stream-1-count',
               None)
         # neither side can send a request body on stream 1
-        for who, conn_ in (('client', c),):
-            try:
-                conn_.send_data(1, b'x')
-            except h2.exceptions.ProtocolError:
-                pass
+        out_c = models.Out(c)
+        body = sym_choice('body_call', ['send_data', 'send_data+end', 'empty+end', 'end_stream',
+                                        'trailers'])
+        try:
+            if body == 'send_data':
+                c.send_data(1, b'x')
+            elif body == 'send_data+end':
+                c.send_data(1, b'x', end_stream=True)
+            elif body == 'empty+end':
+                c.send_data(1, b'', end_stream=True)
+            elif body == 'end_stream':
+                c.end_stream(1)
             else:
-                check(False, who + '-sends-request-body-on-stream-1', None)
+                c.send_headers(1, h2h.TRAILERS, end_stream=True)
+        except h2.exceptions.ProtocolError:
+            pass
+        else:
+            check(False, 'client-sends-request-body-on-stream-1:' + body, None)
+        check(out_c.nbytes() == 0, 'refused-request-body-emits:' + body, None)
         which = sym_choice('scenario', ['respond', 'goaway', 'late-window-update',
                                         'client-body-frame'])
         if which == 'respond':
